@@ -14,6 +14,7 @@ EXPLANATION = (
     "to a marker token and no data. R5 (DOM): every Proceed of the pausing code is dominated by the breakpoint/HALT test, "
     "which is given the current PC, and in the run loop the pausing call is on every path to execute while attached."
     ' R3 follows the .break list from try_from through Debugger::new into the breakpoints field and requires exactly one with_orig on that route. R5 also: outside the interrupt check the just-paused marker may only be cleared. R3 also: with_orig adds the origin unconditionally (the addition lies on every way round the loop or through the closure). R5 also: behind the Some edge of the breakpoint lookup every path stops (only the just-paused test may let it through).'
+    " R3 also: where with_orig is given the declared origin, it is unwrap_or(x3000) of it - the default the loader itself uses."
 )
 
 NOT_DECIDED = ("that the shape rules of insert amount to sortedness for every history (argued on paper from R2); the "
@@ -579,7 +580,12 @@ def run(ctx):
         e = x[2][1] if len(x[2]) > 1 else ("unknown", "?")
         es = expr_str(e, 120)
         # the PC of the freshly loaded state, or the origin the image was built with (its first word, which from_raw turns into that PC)
-        ok = ("pc" in es and "state" in es) or ("orig(" in es and "air" in es)
+        ok = ("pc" in es and "state" in es)
+        if not ok and "orig(" in es and "air" in es:
+            # the declared origin counts only together with the default the loader itself uses when none is declared (x3000): a source
+            # without .orig is loaded there, and its .break addresses must follow
+            ok = any(y[0] == "call" and str(y[1]).endswith("Option::<T>::unwrap_or") and len(y[2]) == 2 and kit.strip_casts(y[2][1]) == ("const", 0x3000)
+                     and "orig(" in expr_str(y[2][0], 120) for y in expr_walk(e))
         ctx.oblig(ok, {"with_orig argument": es, "in": where}, "the loaded PC (= origin)")
         if not ok:
             ctx.violation("with_orig-arg", f.file_line(), "with_orig(%s): expected the origin the image was loaded at" % es)
